@@ -280,7 +280,10 @@ def _bomb(ctx, n):
     """zip bombs: the decoder must raise before building much more than the cap."""
     for i in range(n):
         for kind, x in (("pairs", b"\x00\xff" * (200 + 50 * i)), ("wrap", b"\x00" * (300 + 100 * i) + b"\x05"),
-                        ("wrap-tail", b"\x00" * (4000 + 500 * i))):
+                        ("wrap-tail", b"\x00" * (4000 + 500 * i)),
+                        # past the cap through runs, then nothing but literal bytes: the refusal must not depend on being inside a run
+                        ("pairs-then-literals", b"\x00\xff" * (49 + i % 5) + b"\x01" * (300 + 997 * i)),
+                        ("literals-only", b"\x41" * (0x3000 + 300 + 61 * i))):
             rl = expand_ref_len(x)
             ctx.case(("bomb", kind, i), nontrivial=True, classes=["dec_overcap", "bomb"])
             tracemalloc.start()
